@@ -60,7 +60,7 @@ type Global struct {
 
 // Answer says how the coordinator treats one request.
 type Answer struct {
-	Kind string // "" default, "fail" (failure result), "transport" (WritePkg error), "drop" (no reply), "lockconflict"
+	Kind string // "" default, "fail" (failure result), "transport" (WritePkg error), "drop" (no reply), "lockconflict", "fail-nocode" (BranchRegister: failure result with error code 0)
 	Msg  string
 }
 
@@ -429,6 +429,9 @@ func (tc *TC) handle(s *Session, msg message.RpcMessage, ans Answer) (resp inter
 	case message.BranchRegisterRequest:
 		if fail {
 			return message.BranchRegisterResponse{AbstractTransactionResponse: failResult(ans.Msg, serr.TransactionErrorCodeBranchRegisterFailed)}, nil
+		}
+		if ans.Kind == "fail-nocode" { // a failure result whose transaction error code is 0 (unknown): still a refusal
+			return message.BranchRegisterResponse{AbstractTransactionResponse: failResult(ans.Msg, serr.TransactionErrorCodeUnknown)}, nil
 		}
 		g := tc.globals[req.Xid]
 		if g == nil {
